@@ -199,6 +199,18 @@ func (n *nodeContext) validateValue(state vertexStatus) {
 			if bound == nil {
 				continue
 			}
+			if v == Value(n.node) {
+				// The node itself is a struct or list: it can never
+				// satisfy an ordering bound. Validating the bound against
+				// the node would finalize it again from within its own
+				// evaluation and recurse without end.
+				var src Node = v
+				if len(n.node.Structs) > 0 {
+					src = n.node.Structs[0].StructLit
+				}
+				n.reportConflict(src, bound, v.Kind(), bound.Kind())
+				continue
+			}
 			c := MakeRootConjunct(nil, bound)
 			if b := ctx.Validate(c, v); b != nil {
 				// TODO(errors): make Validate return boolean and generate
